@@ -2248,43 +2248,43 @@ impl BytecodeVM {
             // Bitwise Operations
             // ═══════════════════════════════════════════════════════════════════════════
             Op::BitAnd { dst, left, right } => {
-                let left_val = crate::value::to_int32(self.get_reg(left).to_number());
-                let right_val = crate::value::to_int32(self.get_reg(right).to_number());
+                let left_val = crate::value::to_int32(interp.coerce_to_number(self.get_reg(left))?);
+                let right_val = crate::value::to_int32(interp.coerce_to_number(self.get_reg(right))?);
                 self.set_reg(dst, JsValue::Number((left_val & right_val) as f64));
                 Ok(OpResult::Continue)
             }
 
             Op::BitOr { dst, left, right } => {
-                let left_val = crate::value::to_int32(self.get_reg(left).to_number());
-                let right_val = crate::value::to_int32(self.get_reg(right).to_number());
+                let left_val = crate::value::to_int32(interp.coerce_to_number(self.get_reg(left))?);
+                let right_val = crate::value::to_int32(interp.coerce_to_number(self.get_reg(right))?);
                 self.set_reg(dst, JsValue::Number((left_val | right_val) as f64));
                 Ok(OpResult::Continue)
             }
 
             Op::BitXor { dst, left, right } => {
-                let left_val = crate::value::to_int32(self.get_reg(left).to_number());
-                let right_val = crate::value::to_int32(self.get_reg(right).to_number());
+                let left_val = crate::value::to_int32(interp.coerce_to_number(self.get_reg(left))?);
+                let right_val = crate::value::to_int32(interp.coerce_to_number(self.get_reg(right))?);
                 self.set_reg(dst, JsValue::Number((left_val ^ right_val) as f64));
                 Ok(OpResult::Continue)
             }
 
             Op::LShift { dst, left, right } => {
-                let left_val = crate::value::to_int32(self.get_reg(left).to_number());
-                let right_val = crate::value::to_uint32(self.get_reg(right).to_number()) & 0x1F;
+                let left_val = crate::value::to_int32(interp.coerce_to_number(self.get_reg(left))?);
+                let right_val = crate::value::to_uint32(interp.coerce_to_number(self.get_reg(right))?) & 0x1F;
                 self.set_reg(dst, JsValue::Number((left_val << right_val) as f64));
                 Ok(OpResult::Continue)
             }
 
             Op::RShift { dst, left, right } => {
-                let left_val = crate::value::to_int32(self.get_reg(left).to_number());
-                let right_val = crate::value::to_uint32(self.get_reg(right).to_number()) & 0x1F;
+                let left_val = crate::value::to_int32(interp.coerce_to_number(self.get_reg(left))?);
+                let right_val = crate::value::to_uint32(interp.coerce_to_number(self.get_reg(right))?) & 0x1F;
                 self.set_reg(dst, JsValue::Number((left_val >> right_val) as f64));
                 Ok(OpResult::Continue)
             }
 
             Op::URShift { dst, left, right } => {
-                let left_val = crate::value::to_uint32(self.get_reg(left).to_number());
-                let right_val = crate::value::to_uint32(self.get_reg(right).to_number()) & 0x1F;
+                let left_val = crate::value::to_uint32(interp.coerce_to_number(self.get_reg(left))?);
+                let right_val = crate::value::to_uint32(interp.coerce_to_number(self.get_reg(right))?) & 0x1F;
                 self.set_reg(dst, JsValue::Number((left_val >> right_val) as f64));
                 Ok(OpResult::Continue)
             }
@@ -2421,7 +2421,7 @@ impl BytecodeVM {
             }
 
             Op::BitNot { dst, src } => {
-                let val = crate::value::to_int32(self.get_reg(src).to_number());
+                let val = crate::value::to_int32(interp.coerce_to_number(self.get_reg(src))?);
                 self.set_reg(dst, JsValue::Number((!val) as f64));
                 Ok(OpResult::Continue)
             }
